@@ -1462,9 +1462,18 @@ for _fam, _tn, _note in (
     ('G-nwt', 'nowait', '`get_nowait()` / `put_nowait(x)` written as `get(block=False)` / `put(x, block=False)`'),
     ('G-rsc', 'raisecall', '`raise X` written as `raise X()`'),
     ('G-rsb', 'raisebare', '`raise X()` written as `raise X`'),
+    ('G-t2l', 'tup2list', '`in (a, b)` / `for v in (a, b)` written with a list'),
+    ('G-aan', 'addasname', '`as _exc` added to every handler that binds nothing'),
+    ('G-msp', 'maxsizepos', '`Queue(maxsize=n)` written as `Queue(n)`'),
+    ('G-msk', 'maxsizekw', '`Queue(n)` written as `Queue(maxsize=n)`'),
+    ('G-dmn', 'daemonattr', '`Thread(..., daemon=True)` written as construction plus `t.daemon = True`'),
 ):
     for _i, _m in enumerate(_MODS + [FU]):
         VARIANTS.append(V(f'{_fam}-{_i:02d}', 'E', ALL, _m, None, r'\A.*\Z', _tf.apply(_tn), flags=re.S, note=_note))
+
+
+VARIANTS.append(V('G-unn-00', 'E', ALL, ST, None, r'\A.*\Z', _tf.unnest('fifo_stream', 'feed'), flags=re.S, note='the feeder of fifo_stream moved to module level'))
+VARIANTS.append(V('G-unn-01', 'E', ALL, ST, None, r'\A.*\Z', _tf.unnest('async_fifo_stream', 'feed'), flags=re.S, note='the feeder of async_fifo_stream moved to module level'))
 
 
 # ---------------------------------------------------------------------- values bound to a temporary before they are put / returned / yielded
